@@ -257,10 +257,22 @@ func cmdCheck(repo, verif, prop, tier string, timeout int, verbose bool) int {
 	// report
 	os.MkdirAll(filepath.Join(verif, "replays", prop), 0o755)
 	nviol := 0
+	// the search for a concrete failing input is run once per check (it explores the same inputs whichever
+	// obligation failed) and not at all when the check runs on a must-fail mutant
+	searched, sConfirmed, sDetail := false, false, ""
 	for _, ob := range violations {
 		nviol++
 		path := writeReplay(verif, prop, ob, pr)
-		confirmed, detail := tryReplay(repo, verif, prop, ob, path)
+		confirmed, detail := false, ""
+		if os.Getenv("GOVC_MUTANT") == "" {
+			if !searched {
+				sConfirmed, sDetail = tryReplay(repo, verif, prop, ob, path)
+				searched = true
+			} else {
+				noteReplay(path, sConfirmed, sDetail)
+			}
+			confirmed, detail = sConfirmed, sDetail
+		}
 		suffix := ""
 		if !confirmed {
 			suffix = " no-failing-input-found"
@@ -412,6 +424,7 @@ func writeEvidence(e *Engine, verif string, pr *propRun, tier string, seed, clai
 			"known_findings_reported":  kf,
 			"bounded_stand_ins":        bounded,
 			"must_fail_mutants":        mutants,
+			"second_opinions":          secondOpinions(pr),
 			"contract_files":           e.cs.Files,
 			"explanation":              "obligations generated by weakest-precondition style symbolic execution of go/ssa of the real code against //@ contracts; each is an SMT query discharged only on unsat",
 		},
@@ -515,4 +528,19 @@ func scanVariants(verif string, pr *propRun) scanResult {
 	sort.Strings(bad)
 	sort.Strings(listed)
 	return scanResult{"scan[C18:variants]", len(bad) == 0, fmt.Sprintf("loops without a variant: %v; listed as not proved to terminate (spec/novariant.json): %v", bad, listed)}
+}
+
+// secondOpinions: thorough tier only - how many discharged obligations were also decided the same way by one or two
+// of the other solvers within their short time limit.
+func secondOpinions(pr *propRun) map[string]int {
+	m := map[string]int{"agreed_by_one_more_solver": 0, "agreed_by_two_more_solvers": 0}
+	for _, ob := range pr.obs {
+		switch ob.Agree {
+		case 1:
+			m["agreed_by_one_more_solver"]++
+		case 2:
+			m["agreed_by_two_more_solvers"]++
+		}
+	}
+	return m
 }
